@@ -22,6 +22,7 @@ type LLObj struct {
 
 	ptrAt map[int]llPtrSlot // provenance side table: pointer-carrying values stored at constant offsets
 	lazy  string            // non-empty: nil bytes are materialised on first read as fresh symbols "<lazy>[i]"
+	stack bool              // alloca
 	// lenFacts: terms base+k known to be <= Len on the current path (from the program's own bounds checks and from
 	// earlier accesses); used to discharge bounds obligations syntactically
 	lenFacts []llLenFact
@@ -56,16 +57,16 @@ type llRun struct {
 	depth   int
 	steps   int
 	cur     *LLInstr
-	lastKt  *Term
 	nObj    int
 	// ring buffer records reserved and not yet submitted/discarded
 	ringRecs []llRingRec
 	// if-conversion (speculative execution of small side blocks under a guard)
-	specMode int   // 0 off, 1 on, 2 force (also for concrete conditions; testing)
-	guard    *Term // non-nil while a side block is executed speculatively
-	undo     []llUndo
-	nSpec    int
-	specPure bool // only merge side blocks without stores
+	specMode  int   // 0 off, 1 on, 2 force (also for concrete conditions; testing)
+	guard     *Term // non-nil while a side block is executed speculatively
+	undo      []llUndo
+	nSpec     int
+	specPure  bool // only merge side blocks without stores ...
+	specStack bool // ... except stores into the function's own stack objects
 	// comparisons of packet pointers against the end pointer, by the Bool term they produced
 	lenCmps map[*Term]llLenCmp
 }
@@ -562,8 +563,8 @@ func (r *llRun) writeAcc(a llAcc, bytes []*Term) {
 	n := len(bytes)
 	if r.guard != nil {
 		// speculative side block: conditional write, logged for undo
-		if r.specPure {
-			panic(llSpecAbort{"store under guard (pure mode)"})
+		if r.specPure && !(r.specStack && o.stack) {
+			panic(llSpecAbort{"store under guard"})
 		}
 		if a.sym != nil {
 			panic(llSpecAbort{"symbolic-offset store under guard"})
@@ -1330,6 +1331,7 @@ func (r *llRun) exec(fr *llFrame, ins *LLInstr) (next *LLBlock, ret LLVal, isRet
 		}
 		name := f.Name + ".%" + ins.Res
 		o := r.newObj(name, ins.Ty2.Size()*n, "uninit."+name)
+		o.stack = true
 		set(LLVal{T: r.k(0, 64), Obj: o})
 	case "load":
 		set(r.load(r.eval(fr, ins.Ops[0]), ins.Type))
@@ -1648,7 +1650,9 @@ func (in *Interp) RunBPF(prog, entry string, kind string, env *LLEnv) (res *BPFR
 		mode = env.IfConversion
 	}
 	switch mode {
-	case "", "pure":
+	case "pure":
+	case "", "stack":
+		r.specStack = true
 	case "off":
 		r.specMode = 0
 	case "full":
